@@ -1,0 +1,43 @@
+//go:build verif
+
+// Verification hooks (build tag "verif") for template path resolution and
+// template expansion. Add-only: nothing here is compiled without the tag.
+
+package compiler
+
+import (
+	"io/fs"
+)
+
+// VerifRooted calls rooted and reports whether it succeeded.
+func VerifRooted(parent, name string) (string, bool) {
+	r, err := rooted(parent, name)
+	return r, err == nil
+}
+
+// VerifParseTemplate runs ParseTemplate (parsing and expansion only, no type
+// checking) and returns its error.
+func VerifParseTemplate(fsys fs.FS, name string) error {
+	_, err := ParseTemplate(fsys, name, false, nil)
+	return err
+}
+
+// VerifCycleError reports whether err is a *CycleError and returns the path
+// of the file that closes the cycle and the message.
+func VerifCycleError(err error) (path, msg string, ok bool) {
+	e, ok := err.(*CycleError)
+	if !ok {
+		return "", "", false
+	}
+	return e.path, e.msg, true
+}
+
+// VerifSyntaxError reports whether err is a *SyntaxError and returns its
+// message without position and path.
+func VerifSyntaxError(err error) (msg string, ok bool) {
+	e, ok := err.(*SyntaxError)
+	if !ok {
+		return "", false
+	}
+	return e.Message(), true
+}
